@@ -1,4 +1,7 @@
+#[cfg(not(feature = "cosmian_cover_crypt_verif"))]
 use std::collections::{hash_map::Entry, HashMap, HashSet};
+#[cfg(feature = "cosmian_cover_crypt_verif")]
+use crate::verif_model::collections::{hash_map::Entry, HashMap, HashSet};
 
 use crate::{
     abe_policy::{
